@@ -71,6 +71,15 @@ class IntervalEval:
             raise NotInFragment(f"name {e.id}")
         if isinstance(e, ast.Call):
             fn = ast.unparse(e.func)
+            if fn == "isinstance" and len(e.args) == 2 and isinstance(e.args[1], ast.Name) and e.args[1].id in ("float", "int"):
+                v = self.ev(e.args[0], env)
+                if isinstance(v, Iv):
+                    has_int = math.ceil(v.lo) <= math.floor(v.hi) if v.lo != -INF and v.hi != INF else True
+                    is_float = False if v.integral else (True if not has_int else None)
+                    if is_float is None:
+                        return Iv(0, 1, True)  # undecided truth value
+                    return (is_float if e.args[1].id == "float" else not is_float)
+                raise NotInFragment("isinstance of a non-interval")
             args = [self.ev(a, env) for a in e.args]
             if fn == "float" and len(args) == 1 and isinstance(args[0], Iv):
                 return Iv(args[0].lo, args[0].hi, False)
@@ -142,6 +151,8 @@ class IntervalEval:
             return ("not", self.ev(e.operand, env))
         if isinstance(e, ast.Compare):
             return ("cmp", e, dict(env))
+        if isinstance(e, ast.BoolOp):
+            return ("and" if isinstance(e.op, ast.And) else "or", [self.ev(v, env) for v in e.values])
         if isinstance(e, ast.Tuple):
             return ("pack", "tuple", list(e.elts), dict(env))
         if isinstance(e, ast.Attribute):
@@ -159,6 +170,13 @@ class IntervalEval:
         if isinstance(t, tuple) and t[0] == "cmp":
             node, e0 = t[1], t[2]
             return self.decide_compare(node, {**env, **e0}, env, e0)
+        if isinstance(t, tuple) and t[0] in ("and", "or"):
+            rs = [self.decide(x, env)[0] for x in t[1]]
+            if t[0] == "or":
+                r = True if any(x is True for x in rs) else (False if all(x is False for x in rs) else None)
+            else:
+                r = False if any(x is False for x in rs) else (True if all(x is True for x in rs) else None)
+            return r, ([] if r is not None else [(True, env), (False, env)])
         if isinstance(t, Iv):
             if t.lo == t.hi == 0:
                 return False, []
